@@ -96,6 +96,20 @@ theorem contract_data_fields :
     contractDataFields = ["GasPrice string json:'gasPrice,omitempty'", "GasLimit string json:'gasLimit,omitempty'",
       "TransferValue string json:'transferValue,omitempty'", "AbiData string json:'abiData,omitempty'"] := rfl
 
+/-- The secp256k1 decision layer the model's `recoverPubkey` / `recoverPubkeyEth` / `libVerify`
+    were written against: the native wrapper respells 27.. as 0.. before the `>= 4` check, the
+    ETH wrapper does not; the library's verify starts with the low-s test; each path imports
+    its own wrapper. -/
+theorem secp_layer_shape :
+    checkSignatureCommon = ["if len(sig)!=65", "if sig[64]>26", "sig[64]-=27", "if sig[64]>=4"] ∧
+    checkSignatureEth = ["if len(sig)!=65", "if sig[64]>=4"] ∧
+    recoverPubkeyCommonCalls = ["len", "checkSignature", "C.secp256k1_ext_ecdsa_recover"] ∧
+    recoverPubkeyEthCalls = ["len", "checkSignature", "C.secp256k1_ext_ecdsa_recover"] ∧
+    ecdsaVerifyReturnCommon = ["return (!secp256k1_scalar_is_high(&s) && secp256k1_pubkey_load(ctx, &q, pubkey) && secp256k1_ecdsa_sig_verify(&ctx->ecmult_ctx, &r, &s, &q, &m))"] ∧
+    secpImportNative = ["com.tuntun.rangers/node/src/common/secp256k1"] ∧
+    secpImportEth = ["com.tuntun.rangers/node/src/eth_crypto/secp256k1"] :=
+  ⟨rfl, rfl, rfl, rfl, rfl, rfl, rfl⟩
+
 theorem signer_call_order :
     eip155SenderCalls = ["tx.Protected", "HomesteadSigner{}.Sender", "tx.ChainId().Cmp", "tx.ChainId",
       "new(big.Int).Sub", "new", "V.Sub", "recoverPlain", "s.Hash"] ∧
